@@ -90,6 +90,12 @@ def run(ctx):
         "small world: u64, Unit = 10 (bounded domain, sweep) and Unit = 100 (random); values < 2^31",
     ]
     ctx.cov["trusted_base"] += ["TLC", "harness h-model c09 driver + vmarket (state injection / projection)"]
+    # instruction-level binding of the program guards (liquidate / update_adl_state / auto_deleverage in world R2)
+    try:
+        import props.c09rt as rt
+        rt.run_rt(ctx)
+    except ImportError:
+        pass
     ctx.cov["antecedents"] = {k: int(v) for k, v in need.items()}
     ctx.cov["spec_outcomes"] = {"%s:%s" % k: v for k, v in sorted(spec_ok.items())}
     return ctx.finish("model_checking",
